@@ -146,6 +146,113 @@ theorem replay_rejected (s s' : Store) (id : String) (n now now' : Int) (between
   have h2 := table_monotone s' between id
   rw [not_greater_rejected _ id n now' (by omega)]; rfl
 
+/-! ### nonces and the rest of the store
+
+The nonce table is only ever written by `CheckAndSaveNonce`: no keep-alive, registration, balance update or link of
+any node forgets or lowers an entry, so a replay stays refused however much other traffic the store sees in
+between (seeded change C05-r4 made the memory driver's keep-alive expire entries older than two minutes). -/
+
+inductive AnyOp
+  | nonce (x : Sub)
+  | setNode (n : Node)
+  | addNodeBalance (id : String) (amt : Int)
+  | addAccountBalance (a : String) (amt : Int)
+  | addAccountNode (a id : String)
+  | updateNodePeers (id : String) (reported : List String) (block : Nat) (now : Int)
+
+def applyAny (s : Store) : AnyOp → Store
+  | .nonce x => match s.checkAndSaveNonce x.id x.nonce x.now with | .ok s' => s' | .error _ => s
+  | .setNode n => match s.setNode n with | .ok s' => s' | .error _ => s
+  | .addNodeBalance id amt => match s.addNodeBalance id amt with | .ok s' => s' | .error _ => s
+  | .addAccountBalance a amt => s.addAccountBalance a amt
+  | .addAccountNode a id => match s.addAccountNode a id with | .ok s' => s' | .error _ => s
+  | .updateNodePeers id rep blk now => match s.updateNodePeers id rep blk now with | .ok r => r.1 | .error _ => s
+
+theorem setNode_nonces (s s' : Store) (n : Node) (h : s.setNode n = .ok s') : s'.nonces = s.nonces := by
+  unfold Store.setNode at h
+  split at h
+  · cases h
+  · cases h; rfl
+
+theorem addNodeBalance_nonces (s s' : Store) (id : String) (amt : Int) (h : s.addNodeBalance id amt = .ok s') :
+    s'.nonces = s.nonces := by
+  unfold Store.addNodeBalance at h
+  split at h
+  · cases h
+  · split at h <;> (cases h; rfl)
+
+theorem addAccountNode_nonces (s s' : Store) (a id : String) (h : s.addAccountNode a id = .ok s') :
+    s'.nonces = s.nonces := by
+  unfold Store.addAccountNode at h
+  split at h
+  · cases h
+  · cases h; rfl
+
+theorem updateNodePeers_nonces (s : Store) (id : String) (rep : List String) (blk : Nat) (now : Int)
+    (r : Store × List String) (h : s.updateNodePeers id rep blk now = .ok r) : r.1.nonces = s.nonces := by
+  unfold Store.updateNodePeers at h
+  split at h
+  · cases h
+  · cases h; rfl
+
+/-- **only `CheckAndSaveNonce` writes the nonce table** -/
+theorem other_ops_keep_nonces (s : Store) (op : AnyOp) (h : ∀ x, op ≠ .nonce x) : (applyAny s op).nonces = s.nonces := by
+  cases op with
+  | nonce x => exact absurd rfl (h x)
+  | setNode n =>
+    show (match s.setNode n with | .ok s' => s' | .error _ => s).nonces = s.nonces
+    cases hs : s.setNode n with
+    | ok s' => exact setNode_nonces s s' n hs
+    | error e => rfl
+  | addNodeBalance id amt =>
+    show (match s.addNodeBalance id amt with | .ok s' => s' | .error _ => s).nonces = s.nonces
+    cases hs : s.addNodeBalance id amt with
+    | ok s' => exact addNodeBalance_nonces s s' id amt hs
+    | error e => rfl
+  | addAccountBalance a amt => rfl
+  | addAccountNode a id =>
+    show (match s.addAccountNode a id with | .ok s' => s' | .error _ => s).nonces = s.nonces
+    cases hs : s.addAccountNode a id with
+    | ok s' => exact addAccountNode_nonces s s' a id hs
+    | error e => rfl
+  | updateNodePeers id rep blk now =>
+    show (match s.updateNodePeers id rep blk now with | .ok r => r.1 | .error _ => s).nonces = s.nonces
+    cases hs : s.updateNodePeers id rep blk now with
+    | ok r => exact updateNodePeers_nonces s id rep blk now r hs
+    | error e => rfl
+
+theorem tbl_monotone_step (s : Store) (op : AnyOp) (id : String) : tbl s id ≤ tbl (applyAny s op) id := by
+  cases op with
+  | nonce x =>
+    show tbl s id ≤ tbl (match s.checkAndSaveNonce x.id x.nonce x.now with | .ok s' => s' | .error _ => s) id
+    cases h : s.checkAndSaveNonce x.id x.nonce x.now with
+    | error e => exact Int.le_refl _
+    | ok s' =>
+      have hs := accept_spec s s' x.id x.nonce x.now h
+      by_cases e : id = x.id
+      · subst e; simp only; omega
+      · have := hs.2.2.2 id e; simp only; omega
+  | _ => unfold tbl; rw [other_ops_keep_nonces _ _ (by intro x hx; cases hx)]; exact Int.le_refl _
+
+/-- the table only moves forward along any history of store operations -/
+theorem tbl_monotone_any (s : Store) (ops : List AnyOp) (id : String) : tbl s id ≤ tbl (ops.foldl applyAny s) id := by
+  induction ops generalizing s with
+  | nil => exact Int.le_refl _
+  | cons op t ih => exact Int.le_trans (tbl_monotone_step s op id) (ih _)
+
+/-- **a replay stays refused across any other store traffic**: once a nonce was honoured, the same nonce (and every
+smaller one) of that identity is refused after any sequence of store operations of any identities and nodes, at any
+later clock reading -/
+theorem replay_rejected_across_ops (s s' : Store) (id : String) (n m now now' : Int) (between : List AnyOp)
+    (h : s.checkAndSaveNonce id n now = .ok s') (hm : m ≤ n) :
+    (between.foldl applyAny s').checkAndSaveNonce id m now' = .error .invalidNonce := by
+  have h1 := (accept_spec s s' id n now h).2.2.1
+  have h2 := tbl_monotone_any s' between id
+  exact not_greater_rejected _ id m now' (by omega)
+
+/-- non-vacuity: the premise of `replay_rejected_across_ops` is met (a first nonce on an empty store is honoured) -/
+example : ∃ s', Store.empty.checkAndSaveNonce "a" 5 5 = .ok s' := ⟨_, rfl⟩
+
 /-! ### racing duplicates
 
 Memory driver: `CheckAndSaveNonce` runs under the store mutex, so k concurrent copies execute in
